@@ -168,7 +168,8 @@ class TokDriver(Harness):
 
         def rnd(n, lo=1, hi=256):
             return bytes(r.randrange(lo, hi) for _ in range(n))
-        a = rnd(r.choice([6, 8, 17, 32, 254, 255]))
+        # (the length of A goes through the list with the seed: every sixth driver process has a PIN of the maximum length)
+        a = rnd([6, 255, 8, 17, 254, 32][self.seed % 6])
         pins = {"A": a}
         pins["Apre"] = a[:-1]                                                    # proper prefix
         pins["Aext"] = (a + rnd(1)) if len(a) < 255 else a[:-1] + bytes([a[-1] ^ 1])
